@@ -52,6 +52,14 @@ func init() {
 			}
 			runApply(c, p, S, map[string]string{"C19.R1": "C19.R1", "C19.R3": "C19.R3", "C18.R4": "C19.R1"})
 			checkFreshDecodeTargets(c, p, S, "C19.R1")
+			// "sent through publish, store and replay": the bundled stores hand every record
+			// back as its own object
+			if ps := c.Prog(ModSQLite); ps != nil {
+				checkStoreDecodeTargets(c, ps, PkgSQLite, "C19.R1")
+			}
+			if pd := c.Prog(ModDurable); pd != nil {
+				checkStoreDecodeTargets(c, pd, PkgDurable, "C19.R1")
+			}
 			checkWireNames(c, p, S, "C19.R2")
 			checkPanicFree(c, p, S, "C19.R3")
 			checkConstructors(c, p, "C19.R4")
